@@ -827,6 +827,8 @@ fn to_replay_tree(v: &MVal) -> serde_json::Value {
         MVal::I64(n) => json!({"i": n.to_string()}),
         MVal::U64(n) => json!({"u": n.to_string()}),
         MVal::F64(b) => json!({"f": format!("{:016x}", b)}),
+        // a long run of one character (the huge-payload documents) is written as its run length
+        MVal::Str(s) if s.len() > 4096 && s.chars().all(|c| Some(c) == s.chars().next()) => json!({"run": s.chars().next().unwrap().to_string(), "times": s.chars().count()}),
         MVal::Str(s) => json!(s),
         MVal::Arr(xs) => serde_json::Value::Array(xs.iter().map(to_replay_tree).collect()),
         MVal::Obj(m) => {
@@ -846,6 +848,8 @@ pub fn from_replay(j: &serde_json::Value) -> Result<MVal, String> {
         J::Object(m) => {
             if let Some(J::String(h)) = m.get("hex") {
                 validate(&unhex(h)?)?
+            } else if let (Some(J::String(c)), Some(n)) = (m.get("run"), m.get("times").and_then(|n| n.as_u64())) {
+                MVal::Str(c.repeat(n as usize))
             } else if let Some(J::String(s)) = m.get("i") {
                 MVal::I64(s.parse().map_err(|e| format!("{e}"))?)
             } else if let Some(J::String(s)) = m.get("u") {
